@@ -42,6 +42,10 @@ func main() {
 		dumpErrSets("/repo")
 	case "fsm":
 		dumpFSM("/repo", os.Args[2])
+	case "loopphis":
+		dumpLoopPhis("/repo")
+	case "hdrfsm":
+		dumpHdrLineFSM("/repo")
 	case "list":
 		var ks []string
 		for k := range props {
